@@ -262,15 +262,11 @@ func runC14(r *Run) {
 		if offerSNCT && strings.HasPrefix(val, "permessage-deflate") && ev.ok && !ev.snct && !strings.Contains(val, ",") {
 			val += "; server_no_context_takeover"
 		}
-		o := RawOpts{LibClient: true, Mode: mode, Ext: val}
+		// (a client with compression disabled offers nothing: a server that answers
+		// with the extension anyway must be refused)
+		o := RawOpts{LibClient: true, Mode: mode, Ext: val, ForceExt: true}
 		c, lib, raw, _, err := r.LibVsRaw("c0", o)
 		acceptable := val == "" || mode != websocket.CompressionDisabled && ev.ok
-		if mode == websocket.CompressionDisabled && val != "" {
-			// the harness' fake RoundTripper only sends the extension header when the
-			// client offered one, so nothing is sent here
-			acceptable = true
-			val = ""
-		}
 		if lax {
 			return
 		}
